@@ -200,3 +200,13 @@ Proof.
     { unfold Rdiv in C. set (x := / 2 ^ n) in *. nra. }
     lra.
 Qed.
+
+Lemma bisection_spec e m n d e0 Es : 0 <= e < 1 -> 0 < d ->
+  kg e (e0 - 2 * d) <= m <= kg e (e0 + 2 * d) -> kg e Es = m ->
+  Rabs (kg e (bisect e m n d e0) - m) <= (1 + e) * (2 * (d / 2 ^ n)) /\
+  Rabs (Es - bisect e m n d e0) <= 2 * (d / 2 ^ n).
+Proof.
+  intros He Hd Hb Hs. split.
+  - apply bisect_residual; [lra | assumption | assumption].
+  - apply bisect_near_root; assumption.
+Qed.
